@@ -87,7 +87,7 @@ CHECKS = {
             "Advisory flock semantics of the host; holders run without background threads so refused opens can be compared against a quiescent snapshot.",
             "DESIGN.md 4 C18", "pdbv"),
     "C05": ("exploration",
-            "generated-schedule testing: proptest-generated multi-thread workloads x seeded shuttle schedules (random + PCT) over the unmodified crate (feature loom mapped onto shuttle), real worker loops via verif hooks; interval oracle from harness atomics (no stale / future / torn / non-monotonic read)",
+            "generated-schedule testing: proptest-generated multi-thread workloads x seeded shuttle schedules (random + PCT) over the unmodified crate (feature loom mapped onto shuttle), real worker loops via verif hooks; interval oracle from harness atomics (no stale / future / torn / non-monotonic read); plus the same workloads and oracle on real OS threads with the library's own background workers (half of the shards)",
             "Thread schedules are generated inputs (seed-replayable) at the granularity of the crate's lock and condvar operations, with the four real worker loops or a generated stage order; every read is checked against the interval of transactions that could legally be visible, and per-reader monotonicity / atomic visibility.",
             "Controls scheduling only at lock/condvar operations; library built with feature loom; writers own disjoint key sets.",
             "DESIGN.md 4 C05", "pdbv-shuttle"),
